@@ -307,3 +307,40 @@ func rapidLargePart[C any](t *testing.T, p *Prop[C], st *Stats, n int, gen func(
 	defer func() { genLarge = false }()
 	rapidPart(t, p, st, "rapid-large", n, gen)
 }
+
+// magnitudeLens: lengths at which size-dependent code paths (buffer sizes, chunked or parallel processing) switch:
+// powers of two and multiples of 65536, each with its neighbours.
+func magnitudeLens(deep bool) []int {
+	var out []int
+	top := 18
+	if deep {
+		top = 21
+	}
+	for k := 9; k <= top; k++ {
+		p := 1 << k
+		out = append(out, p-1, p, p+1)
+	}
+	for _, m := range []int{3, 5, 6, 7} {
+		if p := m * 65536; deep || p <= 1<<18+65536 {
+			out = append(out, p-1, p, p+1)
+		}
+	}
+	return append(out, 70000, 70001, 100000)
+}
+
+func bitLen(n int) int {
+	k := 0
+	for n > 1 {
+		n >>= 1
+		k++
+	}
+	return k
+}
+
+// magnitudeLensShort: the subset used where one case costs time proportional to many copies of the sequence.
+func magnitudeLensShort(deep bool) []int {
+	if deep {
+		return magnitudeLens(false)
+	}
+	return []int{4095, 4096, 4097, 65535, 65536, 65537, 131072, 196608, 262144}
+}
